@@ -385,6 +385,9 @@ func (a *Allocation) bindBufferMemory(offset int, buffer core1_0.Buffer, next co
 	if a.memory == nil {
 		return core1_0.VKErrorUnknown, errors.Wrap(ErrAllocationAlreadyFreed, "failed to bind buffer memory")
 	}
+	if offset < 0 {
+		return core1_0.VKErrorUnknown, errors.Errorf("attempted to bind buffer memory at a negative allocation-local offset: %d", offset)
+	}
 
 	switch a.allocationType {
 	case allocationTypeDedicated:
@@ -442,6 +445,9 @@ func (a *Allocation) bindImageMemory(offset int, image core1_0.Image, next commo
 
 	if a.memory == nil {
 		return core1_0.VKErrorUnknown, errors.Wrap(ErrAllocationAlreadyFreed, "failed to bind image memory")
+	}
+	if offset < 0 {
+		return core1_0.VKErrorUnknown, errors.Errorf("attempted to bind image memory at a negative allocation-local offset: %d", offset)
 	}
 
 	switch a.allocationType {
